@@ -6,17 +6,17 @@ set -u
 WT=$1; M=$2; DEST=$3; PKG=$4; T=$5
 export RUSTUP_TOOLCHAIN=stable-x86_64-unknown-linux-gnu CARGO_NET_OFFLINE=true
 cd "$WT" || exit 9
-git checkout -q -- . ; rm -f "$DEST"
+git checkout -q -- . ; git clean -fdq -- examples packages; rm -f "$DEST"
 git apply "$M/patch.diff" || { echo "patch does not apply" > "$M/confirm.txt"; exit 1; }
 SUITE=$(cargo test --workspace --no-fail-fast --offline 2>&1 | grep -E "^test result" | awk '{p+=$4; f+=$6} END {print p" passed "f" failed"}')
 if [ -f "$M/demo.diff" ]; then
   # demonstration delivered as a diff that appends tests to an in-crate test module; $T is the test filter
   git apply "$M/demo.diff" || { echo "demo.diff does not apply" > "$M/confirm.txt"; exit 1; }
   cargo test -p "$PKG" --lib "$T" --offline > "$M/demo_with.log" 2>&1; RC_WITH=$?
-  git checkout -q -- . ; git apply "$M/demo.diff"
+  git checkout -q -- . ; git clean -fdq -- examples packages; git apply "$M/demo.diff"
   cargo test -p "$PKG" --lib "$T" --offline > "$M/demo_without.log" 2>&1; RC_WITHOUT=$?
-  grep -q "running 0 tests" "$M/demo_without.log" && RC_WITHOUT=77
-  git checkout -q -- .
+  grep -q "running 0 tests" "$M/demo_without.log" && ! grep -q "running [1-9]" "$M/demo_without.log" && RC_WITHOUT=77
+  git checkout -q -- . ; git clean -fdq -- examples packages
 else
 mkdir -p "$(dirname "$DEST")"; cp "$M/demo.rs" "$DEST"
 cargo test -p "$PKG" --test "$T" --offline > "$M/demo_with.log" 2>&1; RC_WITH=$?
